@@ -40,7 +40,7 @@ package mux
 //@ extern $fn@(*multiMuxManager).notifyChange
 //@   assigns nothing
 //@ contract (*multiMuxManager).notifyChange
-//@   shape sig=(m *multiMuxManager)()();loops=range;lits=0
+//@   shape sig=(m *multiMuxManager)()();loops=range;lits=0;fv=fn
 //@   props C11
 //@   requires held(m.muxesLock)
 //@   callpre fn: @current_table: $0 == m.muxes && held(m.muxesLock)
@@ -49,7 +49,7 @@ package mux
 // A new session is registered and announced inside one critical section; after shutdown the session and its
 // connection are closed (or owned by a managed session that closes them).
 //@ contract (*multiMuxManager).AddConnection
-//@   shape sig=(m *multiMuxManager)(yamuxSession *yamux.Session,conn net.Conn)();loops=;lits=1
+//@   shape sig=(m *multiMuxManager)(yamuxSession *yamux.Session,conn net.Conn)();loops=;lits=1;fv=
 //@   props C10 C11
 //@   requires m.muxes != nil && m.muxIdSequencer < 18446744073709551615
 //@   ensures @after_shutdown_closed: old(m.lifetime.Err() != nil) ==> yamuxSession.closed && conn.closed
@@ -58,7 +58,7 @@ package mux
 
 // The dead session is removed and the listeners are told, inside one critical section.
 //@ contract (*multiMuxManager).unregisterMux
-//@   shape sig=(m *multiMuxManager)(id string)();loops=;lits=0
+//@   shape sig=(m *multiMuxManager)(id string)();loops=;lits=0;fv=
 //@   props C10 C11
 //@   assigns contents(m.muxes)
 //@   requires m.muxes != nil
@@ -66,7 +66,7 @@ package mux
 
 // Shutdown waits for the provider and then closes every session in the table.
 //@ contract (*multiMuxManager).onClose
-//@   shape sig=(m *multiMuxManager)()();loops=range;lits=0
+//@   shape sig=(m *multiMuxManager)()();loops=range;lits=0;fv=
 //@   props C10
 //@   callpre WaitForClose: @before_lock: !held(m.muxesLock)
 //@   ensures @all_closed: forall k string :: { k in m.muxes } k in m.muxes ==> m.muxes[k].closed
@@ -123,7 +123,7 @@ package mux
 // iteration hands its permit to the new session, the ping-failure branch closes the session and the connection
 // it created, and the loop gives up only when the lifetime has ended.
 //@ contract (*muxProvider).Start$2
-//@   shape sig=()();loops=for0;lits=1
+//@   shape sig=()();loops=for0;lits=1;fv=m.addNewMux,m.sessionFn
 //@   props C10
 //@   requires m != nil && m.muxPermits != nil && m.muxPermits.held == 0
 //@   ensures @exit_only_on_shutdown: m.lifetime.Err() != nil
@@ -138,14 +138,14 @@ package mux
 
 // The health probe is permit-neutral.
 //@ contract (*muxProvider).HasConnectionsAvailable
-//@   shape sig=(m *muxProvider)()( bool);loops=;lits=0
+//@   shape sig=(m *muxProvider)()( bool);loops=;lits=0;fv=
 //@   props C10
 //@   requires m.muxPermits != nil && m.muxPermits.held >= 0
 //@   ensures m.muxPermits.held == old(m.muxPermits.held)
 
 // When a session ends it is unregistered and its slot is given back (one permit).
 //@ contract (*multiMuxManager).AddConnection$1
-//@   shape sig=()();loops=;lits=0
+//@   shape sig=()();loops=;lits=0;fv=
 //@   props C10
 //@   requires m != nil && m.muxes != nil
 //@   callpre unregisterMux: @own_id: $id == newId
@@ -164,7 +164,7 @@ package mux
 //@   ensures result != nil
 //@   assigns nothing
 //@ contract (*receivingConnProvider).NewConnection
-//@   shape sig=(r *receivingConnProvider)()( net.Conn, error);loops=;lits=0
+//@   shape sig=(r *receivingConnProvider)()( net.Conn, error);loops=;lits=0;fv=r.tlsWrapper
 //@   props C10
 //@   requires r.listener != nil
 //@   ensures @accepted_is_returned_or_closed: result0 == nil && conn != nil ==> conn.closed
@@ -182,7 +182,7 @@ package mux
 //@   ensures result != nil && !result.closed
 //@   assigns nothing
 //@ contract (*establishingConnProvider).NewConnection$1
-//@   shape sig=()( error);loops=;lits=0
+//@   shape sig=()( error);loops=;lits=0;fv=p.tlsWrapper
 //@   props C10
 //@   requires p != nil
 //@   ensures @dialled_or_error: (result == nil) == (client != nil)
@@ -193,7 +193,7 @@ package mux
 //@   ensures client != nil ==> !client.closed
 //@   assigns client
 //@ contract (*establishingConnProvider).NewConnection
-//@   shape sig=(p *establishingConnProvider)()( net.Conn, error);loops=;lits=2
+//@   shape sig=(p *establishingConnProvider)()( net.Conn, error);loops=;lits=2;fv=p.tlsWrapper
 //@   props C10
 //@   ensures @dialled_is_returned_or_closed: result0 == nil && client != nil ==> client.closed
 //@   ensures @error_means_no_connection: result1 != nil ==> result0 == nil
@@ -201,10 +201,10 @@ package mux
 // C10 ("never exceeds the configured count"): both roles build their provider with exactly the configured number of
 // connection permits.
 //@ contract NewMuxReceiverProvider
-//@   shape sig=(lifetime context.Context,name string,transportFn AddNewMux,connectionCapacity int64,setting config.TCPTLSInfo,metricLabels []string,upstreamLog log.Logger)( MuxProvider, error);loops=;lits=4
+//@   shape sig=(lifetime context.Context,name string,transportFn AddNewMux,connectionCapacity int64,setting config.TCPTLSInfo,metricLabels []string,upstreamLog log.Logger)( MuxProvider, error);loops=;lits=4;fv=
 //@   props C10
 //@   callpre NewMuxProvider: @configured_capacity: $muxCount == connectionCapacity
 //@ contract NewMuxEstablisherProvider
-//@   shape sig=(lifetime context.Context,name string,transportFn AddNewMux,connectionsCapacity int64,setting config.TCPTLSInfo,metricLabels []string,logger log.Logger)( MuxProvider, error);loops=;lits=3
+//@   shape sig=(lifetime context.Context,name string,transportFn AddNewMux,connectionsCapacity int64,setting config.TCPTLSInfo,metricLabels []string,logger log.Logger)( MuxProvider, error);loops=;lits=3;fv=
 //@   props C10
 //@   callpre NewMuxProvider: @configured_capacity: $muxCount == connectionsCapacity
